@@ -532,6 +532,49 @@ func TestVerif_C18(t *testing.T) {
 		if len(ver) != 32 {
 			t.Fatalf("C18 VIOLATION key=c18-version-length: %d", len(ver))
 		}
+		// "the same on every run": also after the process has meanwhile read OTHER documents,
+		// in particular invalid relatives of this one that fail half-way through validation
+		// (a service with hostnames deployed to two placements; a deployment naming an unknown profile)
+		{
+			bad1 := *d
+			bad1.deploys = append([]c18Deploy(nil), d.deploys...)
+			bad1.placements = append([]c18Placement(nil), d.placements...)
+			for _, sv := range d.services {
+				hosts := false
+				for _, x := range sv.expose {
+					hosts = hosts || len(x.accept) > 0
+				}
+				if !hosts {
+					continue
+				}
+				for _, dp := range d.deploys {
+					if dp.service == sv.name {
+						clone := d.placements[0]
+						for _, pl := range d.placements {
+							if pl.name == dp.placement {
+								clone = pl
+							}
+						}
+						clone.name = "zzsecond"
+						bad1.placements = append(bad1.placements, clone)
+						bad1.deploys = append(bad1.deploys, c18Deploy{service: sv.name, placement: "zzsecond", profile: dp.profile, count: 1})
+						vsLabel("interleaved-invalid-relative:hostname-in-two-groups")
+						break
+					}
+				}
+				break
+			}
+			bad2 := *d
+			bad2.deploys = append([]c18Deploy(nil), d.deploys...)
+			bad2.deploys[len(bad2.deploys)-1].profile = "no-such-profile"
+			for _, bd := range []*c18Doc{&bad1, &bad2} {
+				y, _ := bd.yaml(t, false)
+				_, _, _, _, _ = c18Outputs([]byte(y))
+			}
+			if _, _, _, fp4, err := c18Outputs([]byte(canonical)); err != nil || fp4 != fp {
+				t.Fatalf("C18 VIOLATION key=c18-history-dependent: after the process read two invalid relatives of the document, reading the document itself gave different outputs (err=%v)\n%s", err, canonical)
+			}
+		}
 
 		// self-consistency
 		if err := validation.ValidateManifestWithGroupSpecs(&m, groups); err != nil {
